@@ -1,9 +1,10 @@
 """developer entry point: python -m pyvc.run specs.c11_geometry [substring]"""
 import importlib
+import os
 import sys
 import time
 
-sys.path.insert(0, "/verif")
+sys.path.insert(0, os.path.dirname(os.path.dirname(os.path.abspath(__file__))))
 sys.setrecursionlimit(20000)
 
 from pyvc import spec as S
